@@ -46,10 +46,16 @@ def _java_cmd(xmx='6g', deque=False):
 
 
 def parse_vp(stdout, tag='VP'):
+    """Decodes the emitted lines.  TLC may evaluate a CONSTRAINT more than once per state: identical lines are de-duplicated."""
     out, bad = [], 0
     prefix = '"' + tag + '{'
+    seen = set()
     for line in stdout.splitlines():
         if line.startswith(prefix):
+            if tag != 'VERDICT':
+                if line in seen:
+                    continue
+                seen.add(line)
             try:
                 inner = json.loads(line)
                 out.append(json.loads(inner[len(tag):]))
